@@ -106,6 +106,8 @@ def cfg_strategy(draw, profile="c30"):
         c["fav"] = draw(st.sampled_from([False, False, True]))
         c["m2m_coll"] = draw(st.sampled_from(["list", "set"]))
         c["m2m_bidir"] = draw(st.sampled_from(["backref", "back_populates", "none"]))
+        if c["natpk"] == "orm" and draw(st.booleans()):
+            c["bidir"] = "m2o_only"  # key switches through _DetectKeySwitch need the many-to-one-only shape
     if profile == "c33":
         c["eoc"] = draw(st.booleans())
     if profile == "c31":
@@ -403,7 +405,7 @@ def integrity_problems(canonical, U):
 
 
 class MObj:
-    __slots__ = ("idx", "kind", "uid", "state", "dead", "vals", "parent", "tags", "fav", "stale", "real")
+    __slots__ = ("idx", "kind", "uid", "state", "dead", "vals", "parent", "tags", "fav", "stale", "real", "ghost_of", "flag_override")
 
     def __init__(self, idx, kind, uid):
         self.idx = idx
@@ -417,6 +419,8 @@ class MObj:
         self.fav = None
         self.stale = False  # in-memory relationship attributes may still name a deleted object
         self.real = None
+        self.ghost_of = None  # parent whose loaded collection may still hold this deleted object
+        self.flag_override = None
 
     def __repr__(self):
         return f"<{self.kind}#{self.idx} uid={self.uid} {self.state}{'!' if self.dead else ''}>"
@@ -430,6 +434,7 @@ class Model:
         self.pairs = set()  # (child uid, tag uid)
         self.stack = []  # snapshots; [0] is the enclosing (outer) transaction
         self.name_ctr = 0
+        self.keyswitched = set()  # idx of objects whose primary key change was flushed in the open outer transaction
         self.dirty = False  # unflushed changes may exist
         self.push()
 
@@ -555,6 +560,8 @@ class Model:
             for q in self.objs:
                 if q.fav is x and q is not x:
                     pass  # eligibility forbids deleting a referenced favourite
+            if x.parent is not None and self.U.has_o2m:
+                x.ghost_of = x.parent
             x.parent = None
             x.tags = []
             x.fav = None
@@ -603,7 +610,10 @@ class Model:
         for o in self.objs:
             if o.state in "PS" and not o.dead:
                 key = (U.root(o.kind), o.uid)
-                self.rows[key] = self._row_of(o, self.rows.get(key))
+                oldrow = self.rows.get(key)
+                self.rows[key] = self._row_of(o, oldrow)
+                if oldrow is not None and "name" in oldrow and oldrow["name"] != self.rows[key]["name"]:
+                    self.keyswitched.add(o.idx)
         if U.fam == "pct":
             for c in self.objs:
                 if c.state in "PS" and not c.dead and U.childish(c.kind):
@@ -623,6 +633,9 @@ class Model:
         """in-memory view of a persistent object := what its row says (expire + later load)"""
         U = self.U
         row = self.rows.get((U.root(o.kind), o.uid))
+        for g in self.objs:
+            if g.ghost_of is o:
+                g.ghost_of = None
         if row is None:
             return
         o.vals["val"] = row["val"]
@@ -646,6 +659,7 @@ class Model:
         self.m_flush()
         del self.stack[:]
         self.push()
+        self.keyswitched = set()
         if self.U.cfg["eoc"]:
             for o in self.objs:
                 if o.state == "S" and not o.dead:
@@ -679,6 +693,7 @@ class Model:
         if depth == 0:
             del self.stack[:]
             self.push()
+            self.keyswitched = set()
         self.dirty = False
 
     def m_release(self):
@@ -748,6 +763,8 @@ class Interp:
         self.counters = {"flush_checks": 0, "tx_checks": 0, "ops": 0, "skipped": 0}
         self.warnings = []
         self.trace = []
+        self.scope_kinds = []  # per open savepoint: generic kinds of operations done inside it
+        self.rich_rollback = False  # a savepoint at depth>=2 holding add+delete+modify was rolled back
         self.triggers = []  # known-finding triggers deliberately executed (pinned replays only)
         self.orphan_of = {}  # idx of an orphan-deleted object -> former parent
         event.listen(self.session, "after_flush_postexec", self._on_flush)
@@ -792,7 +809,13 @@ class Interp:
 
         try:
             return fn()
-        except CircularDependencyError as e:
+        except Violation:
+            raise
+        except Exception as e:
+            if self.triggers and not isinstance(e, (HarnessError, CircularDependencyError)):
+                self.viol(self.triggers[0], f"{type(e).__name__}: {str(e)[:300]}")
+            if not isinstance(e, CircularDependencyError):
+                raise
             if self.U.fam == "node":
                 self.viol("flush/spurious-circular-dependency-on-tree-rearrangement",
                           "flush raised CircularDependencyError although the final adjacency list is a tree and "
@@ -814,6 +837,9 @@ class Interp:
 
     def touch(self, kind, *objs):
         self.flush_kinds.add(kind)
+        gen = "add" if kind == "add" else "delete" if kind == "delete" else "modify"
+        for sc in self.scope_kinds:
+            sc.add(gen)
         for o in objs:
             if o is not None:
                 self.flush_mappers.add(self.U.root(o.kind))
@@ -1319,6 +1345,13 @@ class Interp:
             return False
         if not self._orphan_cascade_ok(o):
             return False
+        if self.U.casc_delete:
+            closure = [o] + self.model.descendants(o)
+            if any(g.state == "G" and g.ghost_of in closure for g in self.model.objs):
+                if not self.pinned:
+                    self.ctx.exclude("delete cascade over a loaded collection that still holds an object deleted earlier in the transaction (known finding: it is revived by a savepoint rollback)")
+                    return False
+                self.triggers.append("state/deleted-before-savepoint-revived-by-savepoint-rollback")
         self.do(lambda: self.session.delete(o.real))
         mappers = [o] + (self.model.descendants(o) if self.U.casc_delete else [])
         self.model.m_delete(o)
@@ -1355,6 +1388,11 @@ class Interp:
             self._flush_if_dirty()
             if not (o.state == "S" and self._isolated(o)):
                 return False
+        if o.idx in self.model.keyswitched:
+            if not self.pinned:
+                self.ctx.exclude("expunge of an object whose key switch was flushed in the open transaction: a rollback puts it back into the identity map (known finding)")
+                return False
+            self.triggers.append("rollback/expunged-key-switched-object-back-in-identity-map")
         self.do(lambda: self.session.expunge(o.real))
         o.state = "T" if o.state == "P" else "X"
         self.classes.add("expunge")
@@ -1522,6 +1560,9 @@ class Interp:
         depth = len(self.nested)
         self.guard(self.session.commit)
         del self.nested[:]
+        del self.scope_kinds[:]
+        if self.rich_rollback:
+            self.classes.add("commit-after-rich-rollback")
         self.model.m_commit()
         self._note_flush()
         self.pending_check = False
@@ -1532,6 +1573,8 @@ class Interp:
         depth = len(self.nested)
         self.session.rollback()
         del self.nested[:]
+        del self.scope_kinds[:]
+        self.rich_rollback = False
         self.model.m_rollback_to(0)
         self.flush_kinds = set()
         self.flush_mappers = set()
@@ -1549,6 +1592,7 @@ class Interp:
         self.model.m_flush()
         self._note_flush()
         self.model.push()
+        self.scope_kinds.append(set())
         self.pending_check = False
         self.check_flush_point("begin_nested")
         self.classes.add(f"savepoint-depth-{len(self.nested)}")
@@ -1558,6 +1602,7 @@ class Interp:
             return self.op_flush(a, b, c)
         self.pre_flush()
         self.guard(self.nested.pop().commit)
+        self.scope_kinds.pop()
         self.model.m_release()
         self._note_flush()
         self.pending_check = False
@@ -1570,8 +1615,22 @@ class Interp:
         # b selects how far to roll back: innermost, or an enclosing savepoint
         k = len(self.nested) - 1 - (b % len(self.nested) if b % 3 == 0 else 0)
         tx = self.nested[k]
+        depth_before = len(self.nested)
+        rolled = set().union(*self.scope_kinds[k:])
+        if k < len(self.nested) - 1 and not self.pinned:
+            # known finding: SessionTransaction.rollback() of an enclosing savepoint closes the inner ones
+            # without restoring their snapshots; programs unwind the inner savepoints themselves
+            self.ctx.exclude("rollback of an enclosing savepoint while an inner one is open (known finding); unwound innermost-first instead")
+            for inner in reversed(self.nested[k + 1:]):
+                inner.rollback()
+        elif k < len(self.nested) - 1:
+            self.triggers.append("nested/rollback-of-enclosing-savepoint-skips-inner-scope-restore")
         tx.rollback()
         del self.nested[k:]
+        del self.scope_kinds[k:]
+        if depth_before >= 2 and {"add", "delete", "modify"} <= rolled:
+            self.rich_rollback = True
+            self.classes.add("rich-savepoint-rollback")
         self.model.m_rollback_to(k + 1)
         self.flush_kinds = set()
         self.flush_mappers = set()
@@ -1584,6 +1643,8 @@ class Interp:
         m = self.model
         self.session.close()
         del self.nested[:]
+        del self.scope_kinds[:]
+        self.rich_rollback = False
         m.m_rollback_to(0)
         for o in m.objs:
             if o.state == "S" and not o.dead:
